@@ -260,6 +260,10 @@ def r5_shared_defaults(ctx, rid="C13.R5", scope=None, title=None):
             if dn.split(".")[-1] in ("lru_cache", "cache", "cached_property") and f.cls is not None:
                 ctx.violation(rid, f, d, f"`@{dn}` memoises a method: its answer is computed from the object's state at the first call and returned unchanged afterwards, "
                               "whatever was fitted / loaded in between")
+    from ._shared import memoised_readers
+    for f, d, c in memoised_readers(ctx):
+        if f.cls is None:  # (memoised methods are reported above)
+            ctx.violation(rid, f, d, f"`@{U(d)[:40]}` memoises `{f.name}`, which reads the file system (`{U(c)[:50]}`): a file written again in the same process is answered from the first reading")
     for ck, d in sorted(sd.class_level.items()):
         for name, st in sorted(d.items()):
             ctx.ok(rid, (ck[0], ck[1]), st, f"class-level container {ck[1]}.{name}: read-only everywhere", construct=f"{ck[1]}.{name}")
@@ -314,6 +318,10 @@ def rules(ctx):
     r5_shared_defaults(ctx)
     r6_no_inplace_on_model_values(ctx)
     r7_argument_views(ctx)
+    # 'the same call with the same seed gives the same answer, whatever was done earlier in the process': the per-subject jobs may run
+    # in worker processes that outlive the call and are not reached by its seeding - nothing is drawn inside them (same rule as C07.R3)
+    from .c07 import r3_job_effects
+    r3_job_effects(ctx, rid="C13.R8", title="the per-subject jobs draw nothing (their generators belong to reused worker processes) and write only their own state")
     ctx.trust("State.clone deep-copies (C01.R5); copy.deepcopy; joblib runs each job on its own state object")
     ctx.assume("receiver types follow the annotations / naming conventions listed in sa/effects.py (NAME_TYPES)")
 
